@@ -189,11 +189,6 @@ package dht
 //@ func (*dht.Server).sendError
 //@   trusted
 
-//@ func (*dht.Server).setReturnNodes
-//@   trusted
-//@   modifies r.Nodes, r.Nodes6
-//@   ensures missing-args: (result != nil) == (queryMsg.A == nil)
-//@   ensures protocol-error: result != nil ==> result.Code == 203
 
 //@ spec def needsargs(q string) bool = q == "find_node" || q == "get_peers" || q == "announce_peer" || q == "put" || q == "get"
 //@ spec def known(q string) bool = q == "ping" || needsargs(q)
@@ -201,7 +196,7 @@ package dht
 //@ spec def replies() mathint = count("call:(*dht.Server).reply") + count("call:(*dht.Server).sendError")
 
 //@ func (*dht.Server).handleQuery
-//@   requires nonnil: s != nil && source != nil && s.store != nil && s.store.s != nil
+//@   requires nonnil: s != nil && source != nil && iplen(source) && s.store != nil && s.store.s != nil
 //@   requires unlocked-wrapper: !held(s.store.mu)
 //@   requires globals: krpcErrMissingArguments.Code == 203 && krpc.ErrorMethodUnknown.Code == 204
 //@   requires bep44-globals: bep44.ErrValueFieldTooBig.Code == 205 && bep44.ErrInvalidSignature.Code == 206 && bep44.ErrSaltFieldTooBig.Code == 207 && bep44.ErrCasHashMismatched.Code == 301 && bep44.ErrSequenceNumberLessThanCurrent.Code == 302 && bep44.Empty32ByteArray == 0 && bep44.ErrItemNotFound != nil
@@ -291,7 +286,7 @@ package dht
 //@   trusted
 
 //@ func (*dht.Server).processPacket
-//@   requires nonnil: handler(s) && addr != nil
+//@   requires nonnil: handler(s) && addr != nil && iplen(addr)
 //@   requires unlocked: !held(s.mu)
 //@   modifies *
 //@   callsite (*dht.Server).handleQuery only-queries-of-an-open-server: d.Y == "q" && $source == addr && !recorded("closed") && wheld(s.mu)
@@ -379,3 +374,84 @@ package dht
 //@ func dht.filterPeers
 //@   trusted
 //@   option records filtered
+
+// ---- C09: which contacts a reply propagates ----
+// wants4 / wants6: BEP 32 -- an explicit want list decides; without one, the family of the query's source address
+//@ spec def hasn4(ws []krpc.Want) bool = exists i int :: 0 <= i && i < len(ws) && ws[i] == "n4"
+//@ spec def hasn6(ws []krpc.Want) bool = exists i int :: 0 <= i && i < len(ws) && ws[i] == "n6"
+//@ spec def wants4(ws []krpc.Want, ip []byte) bool = len(ws) != 0 ? hasn4(ws) : isv4(ip)
+//@ spec def wants6(ws []krpc.Want, ip []byte) bool = len(ws) != 0 ? hasn6(ws) : !isv4(ip)
+
+//@ func dht.wantsContain
+//@   ensures membership: result == (exists i int :: 0 <= i && i < len(ws) && ws[i] == w)
+//@   loop 1
+//@     invariant none-so-far: 0 <= $iter && $iter <= len(ws) && (forall j int :: 0 <= j && j < $iter ==> ws[j] != w)
+//@ func dht.shouldReturnNodes
+//@   requires ip-length: len(querySource) == 4 || len(querySource) == 16
+//@   ensures bep32: result == wants4(queryWants, querySource)
+//@ func dht.shouldReturnNodes6
+//@   requires ip-length: len(querySource) == 4 || len(querySource) == 16
+//@   ensures bep32: result == wants6(queryWants, querySource)
+
+// the family filters handed to makeReturnNodes: `nodes` takes only IPv4 contacts, `nodes6` only IPv6 contacts
+//@ func (*dht.Server).setReturnNodes$1
+//@   requires ip-length: len(na.IP) == 4 || len(na.IP) == 16
+//@   ensures ipv4-only: result == isv4(na.IP)
+//@ func (*dht.Server).setReturnNodes$2
+//@   requires ip-length: len(na.IP) == 4 || len(na.IP) == 16
+//@   ensures ipv6-only: result == !isv4(na.IP)
+
+//@ func (*dht.Server).setReturnNodes
+//@   requires nonnil: s != nil && r != nil && querySource != nil && iplen(querySource)
+//@   requires globals: krpcErrMissingArguments.Code == 203
+//@   modifies r.Nodes, r.Nodes6
+//@   callsite (*dht.Server).makeReturnNodes relative-to-the-target-the-query-names: queryMsg.A != nil && $target.bits == (queryMsg.Q == "get_peers" ? queryMsg.A.InfoHash : queryMsg.A.Target)
+//@   ensures missing-args: (result != nil) == (queryMsg.A == nil)
+//@   ensures protocol-error: result != nil ==> result.Code == 203
+//@   ensures nodes-only-for-ipv4-requesters: queryMsg.A != nil && !wants4(queryMsg.A.Want, querySource.IP()) ==> r.Nodes == old(r.Nodes)
+//@   ensures nodes6-only-for-ipv6-requesters: queryMsg.A != nil && !wants6(queryMsg.A.Want, querySource.IP()) ==> r.Nodes6 == old(r.Nodes6)
+//@   ensures two-lookups-at-most: count("call:(*dht.Server).makeReturnNodes") <= 2
+
+// passes(f, n): what the filter callback f answers for node n (callbacks are assumed to be functions of the node for the
+// duration of one call of closestNodes)
+//@ spec uf passes(f Fn, n *node) bool
+//@ func (*dht.table).closestNodes@filter
+//@   trusted
+//@   option noalloc
+//@   ensures the-filter: result == passes(callee, arg0)
+
+//@ func (*dht.table).closestNodes
+//@   requires nonnil: tbl != nil && filter != nil
+//@   requires count: k >= 0
+//@   ensures at-most-k: len(ret) <= k
+//@   ensures all-pass-the-filter: forall j int :: 0 <= j && j < len(ret) ==> passes(filter, ret[j])
+//@   loop 1
+//@     invariant bucket-range: -1 <= bi && bi < 160
+//@     invariant all-pass-the-filter: forall j int :: 0 <= j && j < len(ret) ==> passes(filter, ret[j])
+//@   loop 2
+//@     invariant bucket-range: 0 <= bi && bi < 160
+//@     invariant all-pass-the-filter: forall j int :: 0 <= j && j < len(ret) ==> passes(filter, ret[j])
+
+//@ func (*dht.Server).closestNodes
+//@   option records closest
+//@   requires nonnil: s != nil && filter != nil
+//@   requires count: k >= 0
+//@   ensures at-most-k: len(result) <= k
+//@   ensures all-pass-the-filter: forall j int :: 0 <= j && j < len(result) ==> passes(filter, result[j])
+
+// node.NodeInfo: compact form of a table entry (ID bytes and the address's KRPC form)
+//@ func (*dht.node).NodeInfo
+//@   trusted
+//@   option noalloc
+//@ func (*dht.Server).closestGoodNodeInfos
+//@   requires nonnil: s != nil && filter != nil
+//@   requires count: k >= 0
+//@   callsite (*dht.Server).closestNodes same-count-and-target: $k == k && $target == targetID
+//@   ensures at-most-k: len(ret) <= k
+//@   loop 1
+//@     invariant one-entry-per-node: 0 <= $iter && len(ret) == $iter && $iter <= len(recorded("closest")) && len(recorded("closest")) <= k
+//@ func (*dht.Server).makeReturnNodes
+//@   requires nonnil: s != nil && filter != nil
+//@   option records returnnodes
+//@   callsite (*dht.Server).closestGoodNodeInfos k-is-8: $k == 8 && $targetID == target
+//@   ensures at-most-8: len(result) <= 8
